@@ -49,7 +49,9 @@ def start_server_configs():
         loop.create_server = create_server
         cfg = ServerConfig(host="localhost", port=1965, document_root=root, certfile=os.path.join(d, "c.pem") if given else None, keyfile=os.path.join(d, "k.pem") if given else None,
                            require_client_cert=flag)
-        ca = CertificateAuthConfig(path_rules=[CertificateAuthPathRule(prefix="/admin/", require_cert=True)]) if rules else None
+        ca = CertificateAuthConfig(path_rules=[CertificateAuthPathRule(prefix="/admin/", require_cert=True)] if rules == 1 else
+                                   [CertificateAuthPathRule(prefix="/", require_cert=False, allowed_fingerprints=set())] if rules == 2 else
+                                   [CertificateAuthPathRule(prefix="/private/", require_cert=False, allowed_fingerprints=[])]) if rules else None
         try:
             with contextlib.redirect_stdout(io.StringIO()):
                 await srv.start_server(cfg, certificate_auth_config=ca, enable_rate_limiting=False)
@@ -58,7 +60,7 @@ def start_server_configs():
         return seen
     for given in (True, False):
         for flag in (False, True):
-            for rules in (False, True):
+            for rules in (0, 1, 2, 3):
                 seen = asyncio.run(one(given, flag, rules))
                 inp = dict(certificate_files="given" if given else "auto-generated", require_client_cert=flag, certificate_auth_rules=rules)
                 if not seen:
